@@ -199,6 +199,78 @@ def shard(m, items, inputs=(), prof=('a', 'b')):
             m.sample({'start': gs.render(e), 'inputs': len(inputs), 'nontrivial_inputs': nt})
 
 
+def T(s):
+    return ('tok', s)
+
+
+def rule_forms():
+    """Rule includes, based rules and @override rules, each with its documented expansion."""
+    inc = gs.Rule('inc', ('seq', ('named', 'x', T('a')), ('opt', T('b'))))
+    forms = []
+    forms.append(('include', [inc, gs.Rule('start', ('seq', T('a'), ('inc', 'inc'), T('b')))],
+                  [inc, gs.Rule('start', ('seq', T('a'), ('named', 'x', T('a')), ('opt', T('b')), T('b')))]))
+    forms.append(('include-in-choice', [inc, gs.Rule('start', ('alt', ('seq', ('inc', 'inc'), T('a')), ('seq', T('b'), ('inc', 'inc'))))],
+                  [inc, gs.Rule('start', ('alt', ('seq', ('named', 'x', T('a')), ('opt', T('b')), T('a')), ('seq', T('b'), ('named', 'x', T('a')), ('opt', T('b')))))]))
+    base = gs.Rule('base', ('seq', T('a'), ('opt', T('b'))))
+    forms.append(('based', [base, gs.Rule('start', ('clo', T('a')), base='base')],
+                  [base, gs.Rule('start', ('seq', ('seq', T('a'), ('opt', T('b'))), ('clo', T('a'))))]))
+    nbase = gs.Rule('base', ('named', 'l', T('a')))
+    forms.append(('based-named', [nbase, gs.Rule('start', ('named', 'r', ('alt', T('a'), T('b'))), base='base')],
+                  [nbase, gs.Rule('start', ('seq', ('named', 'l', T('a')), ('named', 'r', ('alt', T('a'), T('b')))))]))
+    forms.append(('override', [gs.Rule('start', ('seq', ('call', 'ab'), ('eof',))), gs.Rule('ab', T('b')),
+                               gs.Rule('ab', ('seq', ('ovr', T('a')), ('clo', ('ovr', T('b')))), decorators=('override',))],
+                  [gs.Rule('start', ('seq', ('call', 'ab'), ('eof',))), gs.Rule('ab', ('seq', ('ovr', T('a')), ('clo', ('ovr', T('b')))))]))
+    return forms
+
+
+def shard_forms(m, items, inputs=()):
+    for label, form_rules, expanded_rules in items:
+        gf = gs.Grammar(rules=list(form_rules))
+        ge = gs.Grammar(rules=list(expanded_rules))
+        try:
+            mf = impl.compile_text(gs.render_grammar(gf))
+            me = impl.compile_text(gs.render_grammar(ge))
+        except Exception as ex:  # noqa
+            m.violation(f'rule-form/compile-failed/{label}/{type(ex).__name__}', grammar=gs.render_grammar(gf), error=str(ex)[:200])
+            continue
+        m.add('programs', 2)
+        ref = Ref(gf, Cfg())
+        for t in inputs:
+            a = impl.parse(mf, t, start='start')
+            b = impl.parse(me, t, start='start')
+            m.add('evaluations', 2)
+            m.add('transitions', 2)
+            m.add('states')
+            if a[0] != b[0] or (a[0] == 'ok' and a[1] != b[1]):
+                m.violation(f'rule-form/differs-from-documented-expansion/{label}', grammar=gs.render_grammar(gf), expansion=gs.render_grammar(ge), input=t, form=a, expanded=b)
+            try:
+                want = ref.parse(t, start='start')
+            except Undecided:
+                continue
+            ok = (want[0] == 'fail' and a[0] == 'fail') or (want[0] == 'ok' and a[0] == 'ok' and a[1] == want[1])
+            if not ok:
+                m.violation(f'rule-form/differs-from-reference/{label}', grammar=gs.render_grammar(gf), input=t, got=a, want=want)
+            if a[0] == 'ok':
+                m.add('nontrivial')
+
+
+def shard_helper_starts(m, items, inputs=(), prof=('a', 'b')):
+    """Parsing from any rule named as start: the helper rules themselves."""
+    g = build_grammar(('tok', prof[0]), helpers_for(*prof))
+    model = impl.compile_text(gs.render_grammar(g))
+    ref = Ref(g, Cfg())
+    for start in items:
+        for t in inputs:
+            got = impl.parse(model, t, start=start)
+            want = ref.parse(t, start=start)
+            m.add('evaluations')
+            m.add('transitions')
+            m.add('states')
+            ok = (want[0] == 'fail' and got[0] == 'fail') or (want[0] == 'ok' and got[0] == 'ok' and got[1] == want[1])
+            if not ok:
+                m.violation(f'named-start/{start}', input=t, got=got, want=want)
+
+
 def run(rc):
     maxn = 3 if rc.tier == 'quick' else 4
     maxlen = 4 if rc.tier == 'quick' else 5
@@ -209,8 +281,11 @@ def run(rc):
     rc.rule = (f'token profile {prof} (selected by VERIF_SEED among {PROFILES}); all expression trees with <= {maxn} nodes over leaves {{t1 t2 /t1/ /t2+/ r R s () !() $ /./ `k` {{}}}} and '
                'operators {group optional closure +closure & ! -> x: x+: @: @+: sequence choice join gather (+/-)}, each compiled from text as '
                f'`start` with helper rules, x all strings over the tokens\' characters and space of length <= {maxlen}; compared with the reference evaluator on '
-               'accept/reject, end offset (through a wrapper rule capturing the rest) and AST; non-trivial = accepted and consumed input')
+               'accept/reject, end offset (through a wrapper rule capturing the rest) and AST; plus rule includes, based rules and @override rules against their '
+               'documented expansions and the reference, and parses started from each helper rule; non-trivial = accepted and consumed input')
     rc.pmap(shard, exps, inputs=inputs, prof=prof)
+    rc.pmap(shard_forms, rule_forms(), chunk=1, inputs=list(gs.inputs(['a', 'b', ' '], maxlen + 1)))
+    rc.pmap(shard_helper_starts, ['r', 'R', 's', 'REST'], chunk=1, inputs=inputs, prof=prof)
     c = rc.total.counts
     rc.coverage.update({
         'states': c.get('states', 0),
